@@ -232,6 +232,9 @@ func (u *Unit) intrinsic(fr *Frame, st *State, fn *ssa.Function, args []Val, whe
 	// unknown external function: fresh results, no effect on election state
 	u.unmodelled[name]++
 	var names []string
+	if sig.Recv() != nil {
+		names = append(names, "recv")
+	}
 	for i := 0; i < sig.Params().Len(); i++ {
 		names = append(names, sig.Params().At(i).Name())
 	}
